@@ -547,6 +547,10 @@ class TexNode(object):
             \item Bye
         \end{itemize}
         """
+        for arg in self.expr.args:
+            if any(content is node.expr for content in arg._contents):
+                arg.remove(node.expr)
+                return
         self.expr.remove(node.expr)
 
     def replace_with(self, *nodes):
